@@ -1,19 +1,48 @@
 import RedoModel.Lemmas.Deps
+import RedoModel.Lemmas.Once.DepsOnceExamples
 /-!
 # C02 — Rebuild set is exactly the set of targets whose inputs changed
 Property theorems only.  Model: `RedoModel/Deps.lean`.
-The full statement (executed set = reference simulation's `mustRun` set, for every history) is
-kept visible as `C02.exact_full`; what is proven so far are the mechanisms the property rests on.
+`exact_full` (no script runs twice within one command, unconditionally) turned out to be false;
+`at_most_once_per_command` is the proven version with the conditions that the counterexamples show
+to be necessary.  The other theorems are the mechanisms the property rests on.
 -/
 namespace C02
 open RedoModel.Deps
 
-/-- Full statement (not yet proven; a proposition, not a theorem): for every history the list of
-scripts the model executes for a `redo-ifchange` is free of repetitions. -/
+/-- The unconditional statement "within one `redo-ifchange` no script runs twice" — for every world
+and every defect setting.  It is **false**, also on worlds reachable from an empty project with all
+defect switches off (`exact_full_false` below): the proof attempt produced four reachable
+counterexamples, each replayed on the real binaries (see DESIGN §12). -/
 def exact_full : Prop :=
   ∀ (d : Defects) (n : Nat) (w : World) (ts : List Nat) (kg : Bool),
     let w' := (runCmd d n (.ifchange ts kg) { w with trace := [] }).2
     (w'.trace.filterMap (fun e => match e with | .ran t => some t | _ => none)).Nodup
+
+/-- `exact_full` is false: e.g. a target that declared `redo-ifcreate f` is run again in the same run
+once `f` has been *built* in that run; likewise when a higher-priority .do candidate is itself a
+target built in the run, when an overridden file was edited a second time (repaired in /repo:
+its stamp was never refreshed), and when a real file is named like the `//ALWAYS` pseudo file. -/
+theorem exact_full_false : ¬ exact_full := Once.ranNodup_false
+
+/-- **At most once per command, for every reachable history**: under the cleanliness conditions
+`Once.Clean` (no .do candidate, `redo-ifcreate` object or `//ALWAYS` is itself a target; no file is
+named like `//ALWAYS`; every overridden file is in step with its record) and with the (repaired)
+out-of-band defect off, the scripts executed by one `redo-ifchange ts` from any world reached from the
+empty project by any history are pairwise different — however many dependents request a target, at
+any nesting depth, through the out-of-band path, with failures and `-k`.  Each condition of `Clean`
+is necessary (counterexamples `Once.Cex.*`); the run-id well-formedness comes for free
+(`Once.wf_reachable`). -/
+theorem at_most_once_per_command (d0 d : Defects) (hd : d.oobRebuildsDepsNotTarget = false)
+    (n0 n : Nat) (rules : Nat → List Nat) (ops : List UserOp) (ts : List Nat) (kg : Bool)
+    (hc : Once.Clean (Once.runOps d0 n0 ops (initWorld rules))) :
+    Once.RanNodupFrom d n (Once.runOps d0 n0 ops (initWorld rules)) ts kg :=
+  Once.ran_nodup_reachable d0 d hd n0 n rules ops ts kg hc
+
+/-- The same from any well-formed clean world. -/
+theorem at_most_once_of_wf (d : Defects) (hd : d.oobRebuildsDepsNotTarget = false) (n : Nat) (w : World)
+    (ts : List Nat) (kg : Bool) (hwf : Once.WF w) (hc : Once.Clean w) : Once.RanNodupFrom d n w ts kg :=
+  Once.ran_nodup_of_wf d hd n w ts kg hwf hc
 
 /-- The memoised verdict: a file already verified in this run is reported clean without being
 examined again and without any write (so a shared dependency is not re-traversed and, having
